@@ -268,9 +268,18 @@ func firstESC(s []Sequence) (ESC, bool) {
 // no ESC of the stream is reported as the Escape key, and the sequences arrive complete and
 // in order.
 func VerifC08SlowConsumer() {
-	streams := []string{"ab\x1b]0;t\x1b\\z", "ab\x1bP1$qm\x1b\\z", "abc\x1b[Az", "ab\x1b_Gi=1\x1b\\z"}
+	streams := []string{"ab\x1b]0;t\x1b\\z", "ab\x1bP1$qm\x1b\\z", "abc\x1b[Az", "ab\x1b_Gi=1\x1b\\z", "ab\x1b"}
 	k := zzverif.Choose("stream", len(streams))
-	p := NewParser(strings.NewReader(streams[k]))
+	var p *Parser
+	if k == 4 {
+		// Close() arrives while the read that returns a final lone ESC is in progress: the run
+		// loop ends with the Escape timer just armed and the channel full
+		r := &verifCloseReader{verifFailReader: verifFailReader{data: []byte(streams[k]), err: verifEOF}, closeAt: 2}
+		p = NewParser(r)
+		r.p = p
+	} else {
+		p = NewParser(strings.NewReader(streams[k]))
+	}
 	<-time.After(50 * time.Millisecond) // the consumer is busy elsewhere
 	escapes, prints := 0, ""
 	strings_, csis := 0, 0
@@ -293,6 +302,14 @@ func VerifC08SlowConsumer() {
 		}
 		p.Finish(s)
 		<-time.After(20 * time.Millisecond) // ... and slow
+	}
+	if k == 4 {
+		// nothing may follow the end marker (a send on the closed channel panics); whether the
+		// final ESC is still reported is not constrained here
+		zzverif.LetTimePass()
+		zzverif.Assert(prints == "ab", "text-before-close-delivered")
+		zzverif.Reach("end")
+		return
 	}
 	zzverif.Assert(escapes == 0, "no-escape-key-for-an-esc-promptly-followed-by-bytes")
 	wantPrints := []string{"abz", "abz", "abcz", "abz"}[k]
